@@ -82,6 +82,13 @@ CLAIMED['C08'] = dict(
     note='Coq kernel; no axioms; layouts in the reference are restated with + * / mod only; debug output (printing) is not modelled: debug on/off is compared on the implementation; '
          'the clip clause for data bytes above 127 (they become 127) is covered by correspondence, the theorem covers the no-change half.',
     technique='Coq proof (refinement to an independent format specification, induction over events/tracks) + correspondence through the reference codec', design='5/C08')
+CLAIMED['C12'] = dict(
+    text='Theorems over the model of _to_abstime/_to_reltime/fix_end_of_track/merge_tracks for ANY number of tracks and ANY deltas: the non-end_of_track '
+         'messages of the result at their absolute ticks are exactly those of the inputs, in the (unique) order sorted by absolute time, then track, then '
+         'in-track index; the result ends in exactly one end_of_track; for non-negative deltas its duration is that of the longest input track.',
+    note='Coq kernel; no axioms; list.sort is assumed stable (its result is then unique and equal to the model\'s insertion sort); immutability of the inputs '
+         'and skip_checks are compared on the implementation (the model is functional).',
+    technique='Coq proof (stable-sort characterisation, telescoping sums, induction) + model/implementation correspondence', design='5/C12')
 NOT_YET = {}
 ALL = ['C%02d' % i for i in range(1, 21)]
 
